@@ -1,4 +1,5 @@
 mod c11;
+mod c12;
 mod c16;
 mod extract;
 mod model;
@@ -17,6 +18,7 @@ fn main() {
     match args[0].as_str() {
         "extract" => extract::main(&args[1..]),
         "C11" => c11::main(&args[1..]),
+        "C12" => c12::main(&args[1..]),
         "C16" => c16::main(&args[1..]),
         o => {
             eprintln!("unknown subcommand {o}");
